@@ -46,6 +46,22 @@ def valid_pe_variant(kind):
     return hdr + b"\0" * (hdr_len - len(hdr)) + b"\xcc" * (end - hdr_len)
 
 
+def valid_pe_big(lfanew=0x1000, nsec=2):
+    """Valid image with a large DOS stub (e_lfanew far from 0x40) and/or many sections (section table beyond the first 4 KiB)."""
+    dos = bytearray(b"MZ" + b"\0" * (lfanew - 2))
+    struct.pack_into("<I", dos, 0x3C, lfanew)
+    coff = struct.pack("<HHIIIHH", 0x14C, nsec, 0, 0, 0, 0xE0, 0x102)
+    opt = bytearray(0xE0)
+    struct.pack_into("<H", opt, 0, 0x10B)
+    struct.pack_into("<I", opt, 92, 16)
+    hdr_len = ((lfanew + 4 + 20 + 0xE0 + 40 * nsec) // 0x200 + 1) * 0x200
+    secs = b""
+    for i in range(nsec):
+        secs += struct.pack("<8sIIIIIIHHI", b".s%d" % (i % 10), 0x200, 0x1000 * (i + 1), 0x200, hdr_len + 0x200 * i, 0, 0, 0, 0, 0x60000020)
+    hdr = bytes(dos) + b"PE\0\0" + coff + bytes(opt) + secs
+    return hdr + b"\0" * (hdr_len - len(hdr)) + b"\xcc" * (0x200 * nsec)
+
+
 def valid_pe(nsec=1, payload=b"\xcc"):
     """A structurally valid image: sections laid out back to back after the headers, file ends with the last section."""
     hdr_len = 0x200
